@@ -16,10 +16,10 @@ import (
 	"verif/wire"
 )
 
-var c12States = []string{"never-connected", "never-connected-signal-taken", "down-signal-taken", "dialing", "connect-write-blocked", "connack-read-blocked", "resend-write-blocked", "online-idle", "online-writer-blocked", "holding-message", "down", "pending-reconnect", "closed-already"}
+var c12States = []string{"never-connected", "never-connected-signal-taken", "down-signal-taken", "dialing", "connect-write-blocked", "connack-read-blocked", "resend-write-blocked", "online-idle", "online-writer-blocked", "holding-message", "holding-big-message", "down", "pending-reconnect", "closed-already"}
 var c12Actions = []string{"Close", "Disconnect-nil", "Disconnect-open-quit", "Disconnect-closed-quit"}
 
-func runShutdown(c *run.Ctx, state string, actions []string, parkHook bool, pendingPubs int) {
+func runShutdown(c *run.Ctx, state string, actions []string, parkHook bool, pendingPubs int, adopted int) {
 	w := sim.NewWorld(c.Rng.Int63())
 	defer w.Shutdown()
 	sim.InstallHooks(w)
@@ -100,11 +100,32 @@ func runShutdown(c *run.Ctx, state string, actions []string, parkHook bool, pend
 		c.Violate("init-failed", err.Error(), nil)
 		return
 	}
+	if adopted > 0 {
+		// the client under test continues a session with transfers nobody confirmed
+		for i := 0; i < adopted; i++ {
+			if i%2 == 0 {
+				cl.PublishAtLeastOnce([]byte("inherited"), fmt.Sprint("t/1/", 900+i))
+			} else {
+				cl.PublishExactlyOnce([]byte("inherited"), fmt.Sprint("t/2/", 900+i))
+			}
+		}
+		cl.Close()
+		cfg2 := cfg
+		var warn []error
+		cl, warn, err = mqtt.AdoptSession(w.Store, &cfg2)
+		if err != nil || len(warn) != 0 {
+			c.Violate("adopt-failed", fmt.Sprintf("AdoptSession of an undamaged session: %v %v", err, warn), nil)
+			return
+		}
+	}
 	d := sim.NewDriver(w, cl, nil, 0)
+	if state == "holding-big-message" {
+		d.BigRead = func(*mqtt.BigMessage) bool { return false }
+	}
 	d.Manual = true
 	d.NoWatch = true
 	detail := func() map[string]any {
-		return map[string]any{"state": state, "actions": actions, "pending_publishes": pendingPubs, "trace_tail": w.TraceTail(traceN(c))}
+		return map[string]any{"state": state, "actions": actions, "pending_publishes": pendingPubs, "inherited_by_adoption": adopted, "trace_tail": w.TraceTail(traceN(c))}
 	}
 
 	// Online/Offline are never both released: sample all along
@@ -204,7 +225,7 @@ func runShutdown(c *run.Ctx, state string, actions []string, parkHook bool, pend
 			stuck("state " + state + " not reached")
 			return
 		}
-	case "online-idle", "online-writer-blocked", "holding-message", "pending-reconnect":
+	case "online-idle", "online-writer-blocked", "holding-message", "holding-big-message", "pending-reconnect":
 		d.GrantWhenPaused(sim.StepTimeout)
 		if !w.WaitUntil(sim.StepTimeout, func() bool { return w.PointCountLocked("connect.resent") > 0 && w.ReaderQuietLocked() }) {
 			stuck("connect")
@@ -219,6 +240,13 @@ func runShutdown(c *run.Ctx, state string, actions []string, parkHook bool, pend
 			inflight = append(inflight, d.Go("Subscribe", func() error { return cl.Subscribe(nil, "w/sub") }))
 			if !w.WaitGateWaiting("state", 1, sim.StepTimeout) {
 				stuck("writer gate not reached")
+				return
+			}
+		case "holding-big-message":
+			// beyond the read buffer, handed out and left unread
+			w.Broker.Publish("in/big", sim.MarkerPayload(1, mqtt.VerifReadBufSize()+100+c.Rng.Intn(5000)), byte(c.Rng.Intn(3)), false)
+			if !w.WaitUntil(sim.StepTimeout, func() bool { return d.ReadCount() >= 1 }) {
+				stuck("big message not returned")
 				return
 			}
 		case "holding-message":
@@ -389,7 +417,7 @@ func runShutdown(c *run.Ctx, state string, actions []string, parkHook bool, pend
 	w.Mu.Lock()
 	dialsAfter := w.Dials
 	w.Mu.Unlock()
-	if dialsAfter > dialsAtAction+1 || dialsAfter > dialsAtAction && state != "pending-reconnect" && state != "down" && state != "never-connected" && state != "holding-message" {
+	if dialsAfter > dialsAtAction+1 || dialsAfter > dialsAtAction && state != "pending-reconnect" && state != "down" && state != "never-connected" && state != "holding-message" && state != "holding-big-message" {
 		// one more dial may have been under way when the action hit
 		c.Violate("dial-after-close", fmt.Sprintf("the Dialer was invoked %d more times after the client was closed", dialsAfter-dialsAtAction), detail())
 	}
@@ -538,7 +566,11 @@ func init() {
 			for i := 0; i < n; i++ {
 				actions = append(actions, c12Actions[c.Rng.Intn(len(c12Actions))])
 			}
-			runShutdown(c, state, actions, c.Rng.Intn(2) == 0, c.Rng.Intn(5))
+			adopted := 0
+			if c.Rng.Intn(4) == 0 {
+				adopted = 1 + c.Rng.Intn(4)
+			}
+			runShutdown(c, state, actions, c.Rng.Intn(2) == 0, c.Rng.Intn(5), adopted)
 		},
 	})
 }
